@@ -582,6 +582,10 @@ func (c *Ctx) c13Scripts() error {
 }
 
 func runC13(c *Ctx) error {
+	// handwritten programs (shapes that once slipped through), run by the Go toolchain
+	if err := c.runCorpus("C13-programs"); err != nil {
+		return err
+	}
 	c.Rep.Rule = "stringT: byte strings of length 0..40 of the classes ascii / valid multi-byte (1..4-byte encodings incl. the boundary code points) / invalid (stray continuation and lead bytes, truncated sequences, surrogates, overlong and out-of-range forms) / random bytes: len, every index and one beyond, four slices (in and out of range), range, all six comparisons and + against a related string (equal, extension, one byte changed, unrelated), []byte round trip and copy semantics, []rune(s) and string([]rune), string(rune) for boundary, random and surrogate values; literal: interpreted strings, raw strings and character literals built from plain characters, multi-byte characters, every simple escape, \\x \\ooo \\u \\U escapes and malformed escapes; go-toolchain: programs over three string variables with literal spellings chosen at random; distinct = distinct string / literal / program; non-trivial = longer than 2 bytes / 3 bytes of literal / more than 4 features"
 	nv, nl := 400, 1500
 	if c.Thorough() {
